@@ -595,7 +595,12 @@ def _wrap_method(cls, name):
         if name in ("add", "__add__") and a and isinstance(a[0], Circuit):
             cs = _shadows.get(a[0])
             pre = cs.copy() if cs is not None else None
-        fp_before = circuit_fingerprint(self) if name in MUTATORS else None
+        fp_before = None
+        if name in MUTATORS:
+            if sh is not None and len(sh.ops) > 400 and (len(sh.ops) + STATS['events']) % 16:
+                STATS["reject_atomicity_sampled_out_on_long_circuit"] += 1   # (a fingerprint costs O(length): 1 call in 16)
+            else:
+                fp_before = circuit_fingerprint(self)
         _depth = 1
         try:
             res = orig(self, *a, **k)
